@@ -24,6 +24,10 @@ def spad(p):
     return "-" if p is None else "%s:%s" % (codes(p[0]), "L" if p[1] else "R")
 
 
+def _san(t):
+    return "".join(c if (c.isalnum() or c in "._-=:,") else "_" for c in t)[:120]
+
+
 def show_e(s):
     k = s[0]
     if k == "EInt":
@@ -50,7 +54,7 @@ def show_e(s):
         return "ENone"
     if k == "EMarker":
         return "EMarker"
-    return "EJunk<%s>" % s[1]
+    return "EJunk<%s>" % _san(s[1])
 
 
 def show_d(s):
@@ -71,7 +75,7 @@ def show_d(s):
         return "DNone"
     if k == "DMarker":
         return "DMarker"
-    return "DJunk<%s>" % s[1]
+    return "DJunk<%s>" % _san(s[1])
 
 
 def show_pkt(path, ir):
